@@ -237,7 +237,7 @@ def build_traces(path, tier, seed):
 def run(tier, seed):
     rep = Report("C17", tier, seed)
     wd = workdir("C17")
-    maxlen = 5 if tier == "quick" else 7
+    maxlen = 5 if tier == "quick" else 6
     tab = os.path.join(wd, "table.txt")
     with warnings.catch_warnings():
         warnings.simplefilter("ignore")
